@@ -1981,3 +1981,77 @@ func structOf(t types.Type) *types.Struct {
 	st, _ := t.Underlying().(*types.Struct)
 	return st
 }
+
+// PhiValuesAt returns the edges of phi that can be the value at site: an edge
+// taken only when a comparison has one outcome is dropped when, under that
+// outcome of every syntactically equal comparison, site cannot be reached from
+// the phi (`var k string; if m == "GET" { k = f() }; …; if m == "GET" { use(k) }`:
+// the empty string never reaches use).
+func PhiValuesAt(phi *ssa.Phi, site ssa.Instruction) []ssa.Value {
+	fn := phi.Parent()
+	var out []ssa.Value
+	for k, e := range phi.Edges {
+		if k >= len(phi.Block().Preds) {
+			out = append(out, e)
+			continue
+		}
+		cond, truth, ok := edgeCondition(phi.Block().Preds[k], phi.Block(), 0)
+		if ok && stableOperands(fn, cond) {
+			env := func(v ssa.Value) (constant.Value, bool) {
+				if bo, isB := v.(*ssa.BinOp); isB && bo.Op == cond.Op {
+					x1, y1, x2, y2 := PathOf(bo.X), PathOf(bo.Y), PathOf(cond.X), PathOf(cond.Y)
+					if x1 != "" && y1 != "" && x1 == x2 && y1 == y2 {
+						return constant.MakeBool(truth), true
+					}
+				}
+				return nil, false
+			}
+			if h, _ := (&Walk{Target: func(i ssa.Instruction) bool { return i == site }, Edge: EdgeUnder(env), Local: true}).FromBlock(phi.Block()); h == nil {
+				continue
+			}
+		}
+		out = append(out, e)
+	}
+	return out
+}
+
+// edgeCondition: the comparison whose outcome decides that control goes pred→blk.
+func edgeCondition(pred, blk *ssa.BasicBlock, depth int) (*ssa.BinOp, bool, bool) {
+	if ifi := BlockIf(pred); ifi != nil && len(pred.Succs) == 2 && pred.Succs[0] != pred.Succs[1] {
+		if bo, ok := ifi.Cond.(*ssa.BinOp); ok {
+			return bo, pred.Succs[0] == blk, true
+		}
+		return nil, false, false
+	}
+	if len(pred.Preds) == 1 && len(pred.Succs) == 1 && depth < 3 {
+		return edgeCondition(pred.Preds[0], pred, depth+1)
+	}
+	return nil, false, false
+}
+
+// stableOperands: the compared operands are constants, parameters or loads of
+// fields that the function never stores to (so equal text means equal value).
+func stableOperands(fn *ssa.Function, bo *ssa.BinOp) bool {
+	for _, v := range []ssa.Value{bo.X, bo.Y} {
+		switch x := v.(type) {
+		case *ssa.Const, *ssa.Parameter:
+		default:
+			_, fld, ok := FieldLoad(x)
+			if !ok {
+				return false
+			}
+			stored := false
+			EachInstrRaw(fn, func(i ssa.Instruction) {
+				if st, isS := i.(*ssa.Store); isS {
+					if _, f2, ok2 := FieldAddrOf(st.Addr); ok2 && f2 == fld {
+						stored = true
+					}
+				}
+			})
+			if stored {
+				return false
+			}
+		}
+	}
+	return true
+}
